@@ -26,10 +26,10 @@ type case = {
   mutable vt : string; mutable entry : string; mutable ops : string;
   mutable pats : (int list * string) list; mutable hays : int list list; mutable trail : int list;
   mutable flags : string; mutable pf : int list option; mutable pp : int list option; mutable stdin : int list;
-  mutable files : (int list * int list) list }
+  mutable files : (int list * int list) list; mutable imghex : string }
 let new_case () = { id = ""; var = "bw"; kind = 0; nfb = 16; vt = "u32"; entry = "build"; ops = "";
                     pats = []; hays = []; trail = [];
-                    flags = ""; pf = None; pp = None; stdin = []; files = [] }
+                    flags = ""; pf = None; pp = None; stdin = []; files = []; imghex = "" }
 let unhex s =
   if s = "-" then [] else
   List.init (String.length s / 2) (fun i -> int_of_string ("0x" ^ String.sub s (2 * i) 2))
@@ -51,6 +51,7 @@ let parse_cases ic =
      | "P" :: p :: [] -> !cur.pats <- (unhex p, "0") :: !cur.pats
      | "H" :: h :: _ -> !cur.hays <- unhex h :: !cur.hays
      | "T" :: t :: _ -> !cur.trail <- unhex t
+     | "IMGHEX" :: x :: _ -> !cur.imghex <- x
      | "FLAGS" :: f :: _ -> !cur.flags <- f
      | "PF" :: x :: _ -> !cur.pf <- Some (unhex x)
      | "PP" :: x :: _ -> !cur.pp <- Some (unhex x)
@@ -210,7 +211,7 @@ let bw_cert tag (a : M.z M.bw_automaton) (c : case) =
     | None -> ()
     | Some pvs ->
       let ok = M.bw_cert_ok zeqb a pvs in
-      pr "%sCERT %d %d\n" tag (if ok then 1 else 0) (int_of_n (M.bw_cert_count a))
+      pr "%sCERT %d %d\n" tag (if ok then 1 else 0) (int_of_n (M.bw_cert_count a pvs))
 
 let res_n = function M.Ok (t, _) -> int_of_n t | _ -> 0xEEEEEEEE
 let bw_table (a : M.z M.bw_automaton) kind =
@@ -433,7 +434,37 @@ let run_cli (c : case) =
             (String.concat "" (List.map (fun ((s, e), _) -> Printf.sprintf " %d,%d" (int_of_nat s) (int_of_nat e)) occs)))
         (M.buf_lines content)) srcs
 
+(* --cert-image: the case carries the bytes the IMPLEMENTATION serialised; they are parsed with the
+   model's deserialiser and given to the Coq-proved certificate checker *)
+let unhex_str s = List.init (String.length s / 2) (fun i -> int_of_string ("0x" ^ String.sub s (2 * i) 2))
+let cert_image (c : case) =
+  if c.var = "bw" && c.imghex <> "" then begin
+    let sv = M.vt_serializable (vtype_of c.vt) in
+    match M.bw_deserialize sv (nlist (unhex_str c.imghex)) with
+    | M.Ok (a, rest) ->
+      if rest <> [] then pr "ICERT 0 0 trailing\n"
+      else if a.M.bw_kind <> M.Standard then pr "ICERT - 0 notstandard\n"
+      else (match spec_pvs c with
+          | None -> pr "ICERT - 0 nopvs\n"
+          | Some pvs ->
+            let ok = M.bw_cert_ok zeqb a pvs in
+            pr "ICERT %d %d\n" (if ok then 1 else 0) (int_of_n (M.bw_cert_count a pvs)))
+    | _ -> pr "ICERT 0 0 undecodable\n"
+  end
+
 let () =
+  if Array.length Sys.argv > 2 && Sys.argv.(1) = "--cert-image" then begin
+    let ic = open_in Sys.argv.(2) in
+    let cases = parse_cases ic in
+    close_in ic;
+    List.iter (fun c ->
+        Buffer.clear buf;
+        pr "CASE %s\n" c.id;
+        (try cert_image c with Stack_overflow -> pr "ICERT 0 0 stackoverflow\n");
+        pr "END %s\n" c.id;
+        print_string (Buffer.contents buf); flush stdout) cases;
+    exit 0
+  end;
   let spec_only = Array.length Sys.argv > 2 && Sys.argv.(1) = "--spec-only" in
   let ic = open_in (if spec_only then Sys.argv.(2) else Sys.argv.(1)) in
   let cases = parse_cases ic in
